@@ -23,7 +23,7 @@ Notation scan_lines := (scan_lines St proc p cb).
 Notation line_step := (line_step St proc p cb).
 
 Definition held_slots (st:rst) : list slot :=
-  match st with RN => [] | R1 a => [a] | R2 a b got => a :: b :: got end.
+  match st with RN => [] | RS => [] | R1 a => [a] | R2 a b got => a :: b :: got end.
 Lemma held_length st : length (held_slots st) = held st.
 Proof. destruct st; reflexivity. Qed.
 
@@ -31,6 +31,7 @@ Proof. destruct st; reflexivity. Qed.
 Definition wf_rst (st:rst) : Prop :=
   match st with
   | RN => True
+  | RS => True
   | R1 a => is_marker a = true
   | R2 a b got => is_marker a = true /\ is_marker b = true /\ length got < ncont p
   end.
@@ -48,9 +49,10 @@ Qed.
 
 Lemma line_step_wf full st acc x f' st' acc' : wf_rst st -> line_step full st acc x = LCont f' st' acc' -> wf_rst st'.
 Proof.
-  intros W E. destruct st as [|a|a b got]; cbn [Reader.line_step wf_rst] in *.
+  intros W E. destruct st as [| |a|a b got]; cbn [Reader.line_step wf_rst] in *.
   - destruct (is_marker x) eqn:M; [inversion E; subst; exact M|].
     destruct (ts_from x full) as [ts|e| |]; try discriminate. destruct (proc acc ts (skipn 2 x)); inversion E; subst; exact I.
+  - destruct (is_marker x) eqn:M; inversion E; subst; [exact M|exact I].
   - destruct (is_marker x) eqn:M.
     + destruct (ncont p =? 0) eqn:C; inversion E; subst; cbn [wf_rst]; [exact I|].
       apply Nat.eqb_neq in C. repeat split; try assumption. cbn [length]. lia.
@@ -81,9 +83,11 @@ Proof.
       by (symmetry; apply Nat.eqb_neq; rewrite !app_length in *; cbn [length] in *; lia).
     rewrite IH by (rewrite <- app_assoc; exact H). rewrite <- app_assoc. reflexivity.
 Qed.
-Lemma replay full st acc : wf_rst st -> scan_lines full RN acc (held_slots st) = LCont full st acc.
+Definition base (st:rst) : rst := match st with RS => RS | _ => RN end.
+Lemma replay full st acc : wf_rst st -> scan_lines full (base st) acc (held_slots st) = LCont full st acc.
 Proof.
-  destruct st as [|a|a b got]; cbn [held_slots wf_rst]; intros W.
+  destruct st as [| |a|a b got]; cbn [held_slots wf_rst base]; intros W.
+  - reflexivity.
   - reflexivity.
   - cbn [Reader.scan_lines Reader.line_step]. rewrite W. reflexivity.
   - destruct W as (Ma & Mb & Lg). cbn [Reader.scan_lines Reader.line_step]. rewrite Ma.
@@ -96,10 +100,11 @@ Qed.
 Lemma line_step_suffix full st acc x f' st' acc' : line_step full st acc x = LCont f' st' acc' ->
   exists pre, held_slots st ++ [x] = pre ++ held_slots st'.
 Proof.
-  intros E. destruct st as [|a|a b got]; cbn [Reader.line_step held_slots] in *.
+  intros E. destruct st as [| |a|a b got]; cbn [Reader.line_step held_slots] in *.
   - destruct (is_marker x); [inversion E; subst; exists []; reflexivity|].
     destruct (ts_from x full) as [ts|e| |]; try discriminate. destruct (proc acc ts (skipn 2 x)); inversion E; subst.
     exists [x]. cbn [held_slots]. rewrite app_nil_r. reflexivity.
+  - destruct (is_marker x); inversion E; subst; [exists []; reflexivity|exists [x]; reflexivity].
   - destruct (is_marker x).
     + destruct (ncont p =? 0); inversion E; subst; cbn [held_slots].
       * exists [a; x]. rewrite app_nil_r. reflexivity.
@@ -127,7 +132,7 @@ Definition result_of (r:lres St) : rres St :=
 
 Lemma held_bound st : wf_rst st -> held st <= 5.
 Proof.
-  destruct st as [|a|a b got]; cbn [wf_rst held]; intros W; try lia.
+  destruct st as [| |a|a b got]; cbn [wf_rst held]; intros W; try lia.
   destruct W as (_ & _ & Lg). assert (ncont p <= 4) by (destruct p as [|[|[|[|n]]]]; cbn; lia). lia.
 Qed.
 
@@ -140,7 +145,7 @@ Theorem chunk_loop_is_scan : forall (n:nat) (chunkn:nat) (region:list byte) (pos
   chunkn > 0 -> chunkn mod L = 0 -> to_read mod L = 0 -> pos + to_read <= length region ->
   to_read <= n * chunkn -> (5 <= BSgen.Consts.read_overlap_lines)%N ->
   wf_rst st -> Forall (fun s => length s = L) (held_slots st) ->
-  chunk_loop St proc p cb n (N.of_nat chunkn) region (N.of_nat pos) (N.of_nat to_read) full (concat (held_slots st)) acc
+  chunk_loop St proc p cb n (N.of_nat chunkn) region (N.of_nat pos) (N.of_nat to_read) full (base st) (concat (held_slots st)) acc
   = result_of (scan_lines full st acc (chunks L (firstn to_read (skipn pos region)))).
 Proof.
   induction n as [|n IH]; intros chunkn region pos to_read full st acc Hc Hcm Htm Hle Hn Hov W HL.
